@@ -1087,7 +1087,7 @@ def run(ctx):
     dtypes = ["complex128", "float64", "complex64", "float32"]
 
     # S->C 1: behaviours of the tensor-level algebra model
-    behs = MM.simulated_behaviours(ctx, 50 if quick else 600)
+    behs = MM.simulated_behaviours(ctx, 50 if quick else 400)
     rng = random.Random(900 + seed)
     for k, b in enumerate(behs):
         w = replay_algebra(b, ntr, "complex64" if k % 4 == 3 else "complex128", rng)      # (the model's data is complex)
@@ -1112,7 +1112,7 @@ def run(ctx):
     ctx.extra["model_compress_cases"] = len(cases)
 
     # C->S 1: random histories of arithmetic / queries
-    nwalk, nsteps = (60, 22) if quick else (700, 35)
+    nwalk, nsteps = (90, 22) if quick else (500, 35)
     skipped = 0
     for k in range(nwalk):
         w = algebra_walk(100000 * (seed + 1) + k, ntr, nsteps, dtypes[k % 4])
@@ -1124,13 +1124,13 @@ def run(ctx):
 
     lap("walks")
     # C->S 2: compression campaigns
-    ncamp, ncomb = (14, 46) if quick else (150, None)
+    ncamp, ncomb = (18, 46) if quick else (50, None)
     for k in range(ncamp):
         kind = "mps" if k % 3 != 2 else "mpo"
         w = compress_campaign(200000 * (seed + 1) + k, ntr, kind, dtypes[k % 4] if k % 2 else "complex128", ncomb, methods)
         recs += w.recs
         ntr += 1
-    nml = 3 if quick else 30
+    nml = 3 if quick else 20
     for k in range(nml):
         w = multilayer_campaign(300000 * (seed + 1) + k, ntr, "complex128", methods, 24 if quick else 80)
         recs += w.recs
@@ -1138,6 +1138,10 @@ def run(ctx):
     ctx.extra["records_skipped_for_magnitude"] = skipped
     lap("campaigns")
 
+    import hashlib
+    import json as _json
+    ctx.extra["trace_digest"] = hashlib.sha1("\n".join(
+        _json.dumps({k: v for k, v in rr.items() if k not in ("raw", "excmsg")}, sort_keys=True) for rr in recs).encode()).hexdigest()
     kinds = {}
     for rr in recs:
         key = rr["ev"] + ":" + str(rr.get("op") or rr.get("q") or rr.get("method") or rr.get("gen") or "")
